@@ -286,7 +286,7 @@ static void build_chain(const std::string& spec, ChainOwner& o) {
 
 static uint64_t g_index = 0;
 static int g_pair_sigs = 0;
-static const int MAX_PAIR_SIGS = 12;
+static const int MAX_PAIR_SIGS = 24;
 static std::set<unsigned> g_masks;
 static std::set<std::string> g_base_not_found;   // single objects: 'K as T' where K derives from T yet find_pdu<T> returns null   // distinct outcome vectors seen by this process
 
